@@ -541,10 +541,18 @@ fn process_tags(
                 continue;
             }
             attempts += 1;
-            let el = if let Some(el) = t.get_element() {
+            let el = if let Some(el) = t.get_element_mut() {
+                // The id is evaluated once, here, and kept: the element is registered
+                // under the id it is written with (evaluating it again later drew
+                // another random number, and could give another id).
+                if let Some(id) = el.get_attr("id") {
+                    if let Ok(id) = eval_attr(&id, context) {
+                        el.set_attr("id", &id);
+                    }
+                }
                 // update early so reuse targets are available even if the element
                 // is not ready (e.g. within a specs block)
-                context.update_element(&el);
+                context.update_element(el);
                 Some(el.clone())
             } else {
                 None
